@@ -395,8 +395,25 @@ func (s *Syncer) addPeer(p *Peer) error {
 	}
 
 	s.mu.Lock()
+	defer s.mu.Unlock()
+	// allowConnect counted the peers before the handshake; any number of
+	// connections may have passed that check since. Re-check the inbound cap
+	// under the same lock as the insert.
+	if p.Inbound {
+		if _, replace := s.peers[p.t.Addr]; !replace {
+			var in int
+			for _, other := range s.peers {
+				if other.Inbound {
+					in++
+				}
+			}
+			if in >= s.config.MaxInboundPeers {
+				p.t.Close()
+				return errors.New("too many inbound peers")
+			}
+		}
+	}
 	s.peers[p.t.Addr] = p
-	s.mu.Unlock()
 	return nil
 }
 
